@@ -180,10 +180,24 @@ def hygiene(files):
     return hits
 
 
+def prop_files(prop):
+    return [prop["properties_file"]] + list(prop.get("more_properties_files", []))
+
+
 def print_assumptions(prop):
-    """Re-compile Properties/Cnn.v capturing the Print Assumptions blocks.
+    """Re-compile Properties/Cnn.v (and any more_properties_files) capturing the Print Assumptions blocks.
     Returns (ok, {theorem: 'closed' | [axiom names]}, log)."""
-    rel = prop["properties_file"]
+    res, logs = {}, ""
+    for rel in prop_files(prop):
+        ok, r, out = _print_assumptions_file(prop, rel)
+        logs += out
+        if not ok:
+            return False, {}, out
+        res.update(r)
+    return True, res, logs
+
+
+def _print_assumptions_file(prop, rel):
     src = strip_comments(open(os.path.join(COQ, rel)).read())
     asked = re.findall(r"Print\s+Assumptions\s+(\w+)\s*\.", src)
     outvo = os.path.join(SCRATCH, prop["id"], "pa", os.path.basename(rel) + "o")
@@ -211,8 +225,11 @@ def print_assumptions(prop):
 
 
 def theorem_names(prop):
-    src = strip_comments(open(os.path.join(COQ, prop["properties_file"])).read())
-    return re.findall(r"\b(?:Theorem|Lemma|Corollary)\s+(\w+)", src)
+    names = []
+    for rel in prop_files(prop):
+        src = strip_comments(open(os.path.join(COQ, rel)).read())
+        names += re.findall(r"\b(?:Theorem|Lemma|Corollary)\s+(\w+)", src)
+    return names
 
 
 def proof_side(prop, timeout):
@@ -242,6 +259,10 @@ def proof_side(prop, timeout):
         r["discharged"] = 0
         return r
     files = coq_closure(prop["properties_file"])
+    for extra_pf in prop.get("more_properties_files", []):
+        for f in coq_closure(extra_pf):
+            if f not in files:
+                files.append(f)
     for t in targets:
         v = t[:-1] if t.endswith(".vo") else t
         for f in coq_closure(v):
